@@ -93,20 +93,30 @@ def check_sig(spec, ret, future, stats, enum=True, shp=None):
         stats.sample('sig', {'text': text, 'ret': ret, 'postponed': future})
     haspo = PO in kinds
     kw = {} if ret is None else {'ret': ret}
-    # --- building: native + option combinations
+    # --- building: native + option combinations.  One namespace serves every build of the case (as a test module's would), a
+    # helper function named like an annotation is built in it before anything is evaluated: builds are independent of each other
+    ns = dict(GLOBALS)
+    built = []
     for ua, up, uk in itertools.product((False, True), repeat=3):
         if haspo and (ua or up or uk):
             continue
         stats.case()
         opts = dict(use_modifiers_annotate=ua, use_modifiers_posoargs=up, use_modifiers_kwoargs=uk)
         try:
-            fn = support.f(text, globals=dict(GLOBALS), future_features=ff, **kw, **opts)
+            fn = support.f(text, globals=ns, future_features=ff, **kw, **opts)
             sig1 = signatures.signature(fn)
-            sig2 = support.s(text, globals=dict(GLOBALS), future_features=ff, **kw, **opts)
+            sig2 = support.s(text, globals=ns, future_features=ff, **kw, **opts)
         except Exception as e:
             stats.fail('C20/build/raised-%s' % type(e).__name__, dict(case, options=opts), 'support.f/s(%s, %s) raised %s: %s' % (desc, opts, type(e).__name__, e))
             continue
         stats.cls('build/%s' % ('native' if not (ua or up or uk) else 'modifiers'))
+        built.append((ua, up, uk, opts, sig1, sig2))
+    try:
+        support.f('zz9', globals=ns, name='T')
+        support.s('zz9', globals=ns, name='int')
+    except Exception as e:
+        stats.fail('C20/build/raised-%s' % type(e).__name__, dict(case, options={'name': 'T'}), "support.f('zz9', name='T') raised %s: %s" % (type(e).__name__, e))
+    for ua, up, uk, opts, sig1, sig2 in built:
         for label, sg_ in (('signatures.signature(f(text))', sig1), ('s(text)', sig2)):
             got = got_params(sg_)
             ok = (got == exp) if not (ua or up or uk) else (canon(got) == canon(exp))
